@@ -35,6 +35,8 @@ REWRITES = {
     'R19': '`for (K, V) in MAP.clone()` or `for (K, V) in MAP` (by-value iteration over a HashMap, no vstd model of hash_map::IntoIter) becomes `for (vx_k, vx_v) in MAP.iter()` with `let K = vx_k.clone(); let V = vx_v.clone();` first in the body; equal under the clone==identity assumption already listed for the element types',
     'R20': 'inline const block `const { E }` in expression position becomes `(E)` (Verus does not support const block expressions; the value of a const block is the value of its expression)',
     'R21': 'closure whose only parameter is the wildcard `|_|` gets a named, unused parameter `|_vx_w|` (Verus accepts only variables as closure parameters)',
+    'R2c': 'format! whose template has only `{}` / `{ident}` placeholders becomes the concatenation of its literal pieces and of the Display strings of its arguments (str, String, Cow<str>): vx_cat(vx_lit(..), VxS::vx_s(&arg)) -- used where the formatted string is a key the property depends on',
+    'R1b': '`unreachable!(\"..\", args)` / `panic!(\"..\", args)` lose their message and become `unreachable!()` (the arm stays an obligation: it must be proved unreachable)',
     'R12': 'derive(Default) expanded to the field-wise impl the derive generates (inside verus!, verified, not assumed)',
 }
 
@@ -127,6 +129,62 @@ def _split_args(txt):
             cur += c
     if cur.strip():
         out.append(cur.strip())
+    return out
+
+
+def _panic_has_message(txt):
+    return not re.fullmatch(r'(unreachable|panic)!\s*[\(\[\{]\s*[\)\]\}]\s*;?', txt.strip())
+
+
+def _format_concat(txt):
+    """`format!("a{}b{x}", e)` -> `vx_cat(vx_cat(vx_cat(vx_lit("a"), VxS::vx_s(&(e))), vx_lit("b")), VxS::vx_s(&(x)))`; None if the
+    template uses anything but `{}` / `{ident}` (format specs, positional indices) or is not a plain string literal."""
+    m = re.match(r'format!\s*[\(\[\{](.*)[\)\]\}]\s*$', txt, re.S)
+    if not m:
+        return None
+    args = _split_args(m.group(1).strip().rstrip(','))
+    if not args or not re.fullmatch(r'"(?:[^"\\]|\\.)*"', args[0], re.S):
+        return None
+    tpl, rest = args[0][1:-1], args[1:]
+    if '\\' in tpl:
+        return None
+    parts, lit, k, i = [], '', 0, 0
+    while i < len(tpl):
+        c = tpl[i]
+        if tpl.startswith('{{', i) or tpl.startswith('}}', i):
+            lit += c
+            i += 2
+            continue
+        if c == '{':
+            j = tpl.find('}', i)
+            if j < 0:
+                return None
+            inner = tpl[i + 1:j]
+            if lit:
+                parts.append(f'vx_lit("{lit}")')
+                lit = ''
+            if inner == '':
+                if k >= len(rest):
+                    return None
+                parts.append(f'VxS::vx_s(&({rest[k]}))')
+                k += 1
+            elif re.fullmatch(r'[A-Za-z_][A-Za-z0-9_]*', inner):
+                parts.append(f'VxS::vx_s(&({inner}))')
+            else:
+                return None
+            i = j + 1
+            continue
+        if c == '}':
+            return None
+        lit += c
+        i += 1
+    if lit:
+        parts.append(f'vx_lit("{lit}")')
+    if k != len(rest) or not parts:
+        return None
+    out = parts[0]
+    for q in parts[1:]:
+        out = f'vx_cat({out}, {q})'
     return out
 
 
@@ -727,9 +785,23 @@ pub assume_specification [<{q} as PartialEq>::eq] (a: &{q}, b: &{q}) -> (r: bool
                 else:
                     edits.append((s, t, []))
                 self._rw('R1')
+            elif nm in ('unreachable', 'panic') and _panic_has_message(src[s:t].decode()):
+                # R1b: the message of a panic is diagnostic text; what matters is that the arm is an obligation "never reached"
+                edits.append((s, t, [Seg('unreachable!()')]))
+                self._rw('R1b')
             elif nm in ('log_enabled', 'log::log_enabled'):
                 edits.append((s, t, [Seg('vx_log_enabled()')]))
                 self._rw('R1')
+            elif nm == 'format' and fmt == 'concat':
+                # R2c: format! whose template has only `{}` / `{ident}` placeholders -> concatenation of its literal pieces and
+                # the Display strings of its arguments (prelude.format_concat declares vx_cat / vx_lit / VxS::vx_s)
+                rep = _format_concat(src[s:t].decode())
+                if rep is None:
+                    edits.append((s, t, [Seg('vx_string()')]))
+                    self._rw('R2')
+                else:
+                    edits.append((s, t, [Seg(rep)]))
+                    self._rw('R2c')
             elif nm == 'format' and fmt:
                 edits.append((s, t, [Seg('vx_string()')]))
                 self._rw('R2')
@@ -993,6 +1065,9 @@ pub assume_specification [<{q} as PartialEq>::eq] (a: &{q}, b: &{q}) -> (r: bool
             if nm in LOG_MACROS:
                 edits.append((ms, mt, [Seg('()')] if not m['stmt'] else []))
                 self._rw('R1')
+            elif nm in ('unreachable', 'panic') and _panic_has_message(src[ms:mt].decode()):
+                edits.append((ms, mt, [Seg('unreachable!()')]))
+                self._rw('R1b')
             elif nm in ('log_enabled', 'log::log_enabled'):
                 edits.append((ms, mt, [Seg('vx_log_enabled()')]))
                 self._rw('R1')
@@ -1365,7 +1440,17 @@ def map_diag(d, spans, fnspans):
     cls = classify(d['message'])
     clauses = []
     fn = None
-    for sp in d.get('spans', []):
+    for sp0 in d.get('spans', []):
+        # a span inside a macro of another file (unreachable!, panic!, assert!): walk out to the call site in the unit
+        sp = sp0
+        hops = 0
+        while sp.get('expansion') and sp['expansion'].get('span') and hops < 8 and not str(sp.get('file_name', '')).endswith('.rs') or \
+                (sp.get('expansion') and sp['expansion'].get('span') and hops < 8 and ('/rustc/' in str(sp.get('file_name', '')) or 'library/' in str(sp.get('file_name', '')))):
+            nxt = dict(sp['expansion']['span'])
+            nxt['is_primary'] = sp.get('is_primary')
+            nxt['label'] = sp.get('label')
+            sp = nxt
+            hops += 1
         bs0, be0 = sp['byte_start'], sp['byte_end']
         lab = (sp.get('label') or '')
         # only the span that names the failing clause counts (not "at the end of the function body" / "at this exit")
